@@ -90,12 +90,17 @@ func scJailRestakeUnjail(w *sim.World) {
 		return
 	}
 	target := jailTime.Add(cp.JailDur) // the script's own record of the jail expiry
-	for _, d := range []int64{-1, 0, 1} {
-		t := target.Add(time.Duration(d) * time.Second)
+	offs := []time.Duration{-time.Second, 0, time.Second}
+	if ns := int64(target.Nanosecond()); ns > 0 {
+		// block times with a sub-second part: strictly before the expiry but within the same second of the clock
+		offs = []time.Duration{-time.Second, -time.Duration(1 + w.R.Int63n(ns)), -1, 0, 1}
+	}
+	for _, d := range offs {
+		t := target.Add(d)
 		if !t.After(w.Now) {
 			continue
 		}
-		w.Step(int64(t.Sub(w.Now) / time.Second))
+		w.StepTo(t)
 		w.Force("unjail-around-expiry", unjailTx(w, v))
 		if !w.Block() {
 			return
@@ -407,6 +412,7 @@ func scenarioFor(prop string, i int, r *sim.Rand) (func(w *sim.World), func(p *s
 				p.Pos.MinSignedPerWindow = sdk.NewDecWithPrec(5, 1)
 				p.Pos.SlashFractionDowntime = []sdk.Dec{sdk.NewDecWithPrec(1, 2), sdk.NewDecWithPrec(5, 1), sdk.NewDecWithPrec(1, 1)}[i/8%3]
 				p.Pos.DowntimeJailDuration = time.Duration([]int64{60, 120, 600}[i/8%3]) * time.Second
+				p.SubSecond = i/8%2 == 1 // block times with nanoseconds: the expiry is approached within its own second
 			}
 		case 6:
 			if prop == "C06" {
